@@ -97,6 +97,34 @@ fn c18_dag_replay() {
                     fails.push(format!("{}: item {} reports index {} and child indices {:?}; its children were yielded at {:?}", name, i, d.index, reported, ch));
                 }
             }
+            // right-to-left variant: the same nodes, children still first, and after unswap() left_index / right_index
+            // name the positions of the LEFT and RIGHT child
+            let rtl: Vec<_> = prog.as_ref().rtl_post_order_iter::<InternalSharing>().collect();
+            let rpos: HashMap<usize, usize> = rtl.iter().enumerate().map(|(i, d)| (d.node as *const CommitNode as usize, i)).collect();
+            if rtl.len() != want.len() {
+                fails.push(format!("{}: right-to-left post-order yields {} items, the DAG has {} distinct nodes", name, rtl.len(), want.len()));
+            }
+            for (i, d) in rtl.iter().enumerate() {
+                let ch: Vec<usize> = children(d.node).into_iter().map(|c| rpos.get(&ptr(c)).copied().unwrap_or(usize::MAX)).collect();
+                let reported: Vec<usize> = d.left_index.into_iter().chain(d.right_index).collect();
+                if d.index != i || reported != ch || ch.iter().any(|&c| c >= i) {
+                    fails.push(format!("{}: right-to-left item {} reports index {} and child indices {:?}; its (left, right) children were yielded at {:?}", name, i, d.index, reported, ch));
+                }
+            }
+            if rtl.len() >= 3 {
+                // mirror image: for a binary root the right child's subtree comes first
+                if let Some(last) = rtl.last() {
+                    let cs = children(last.node);
+                    if cs.len() == 2 && ptr(cs[0]) != ptr(cs[1]) {
+                        if let (Some(&l), Some(&r)) = (rpos.get(&ptr(cs[0])), rpos.get(&ptr(cs[1]))) {
+                            let r_in_left = { let (mut s2, mut o2) = (HashSet::new(), Vec::new()); ref_post_order(cs[0], &mut s2, &mut o2); s2.contains(&ptr(cs[1])) };
+                            if !r_in_left && r > l {
+                                fails.push(format!("{}: right-to-left order yields the root's left child (at {}) before its right child (at {})", name, l, r));
+                            }
+                        }
+                    }
+                }
+            }
             // NoSharing: the tree unfolding
             let n_tree = prog.as_ref().post_order_iter::<NoSharing>().count();
             if n_tree != tree_size(&prog) {
